@@ -90,6 +90,7 @@ def setup(rep, tier):
     rep.minimum('R11.8', 12)
     rep.minimum('R11.10', 1)
     rep.minimum('R11.11', 2)
+    rep.minimum('R11.12', 1)
     rep.trusted.append('spec/ctl_ranges.json (hand transcription of include/opus_defines.h)')
 
 
@@ -890,7 +891,49 @@ def r11_11(rep, prog):
     return n
 
 
+# ------------------------------------------------------------------ R11.12
+# request numbers are part of the public ABI (include/opus_defines.h, src/opus_private.h)
+USER_SETTINGS_REQ = {4008: 'bandwidth', 4004: 'max bandwidth', 4022: 'forced channel count', 11002: 'forced mode', 4006: 'VBR', 4020: 'VBR constraint',
+                     4010: 'complexity', 4024: 'signal type', 4012: 'in-band FEC', 4016: 'DTX', 4014: 'loss percentage', 4036: 'LSB depth',
+                     4042: 'prediction', 4046: 'phase inversion', 4040: 'frame duration'}
+OWN_REQ = {4002: 'bitrate (the per-stream split)', 10026: 'energy mask', 10024: 'LFE flag'}
+
+
+def r11_12(rep, prog):
+    """a multistream encode call does not overwrite, on its stream encoders, a setting the user can make through
+    opus_multistream_encoder_ctl: those settings were forwarded to the streams by the ctl and bind the packets.  (The
+    per-stream bitrate and the internal energy mask are the encoder's own business and are not user settings of a stream.)"""
+    if not prog.has_fn('opus_multistream_encode_native'):
+        return 0
+    f = prog.fn('opus_multistream_encode_native')
+    rep.functions.add(f.name)
+    n = 0
+    seen = set()
+    for c in f.calls():
+        if sx.callee_name(c) != 'opus_encoder_ctl' or len(c[2]) < 2:
+            continue
+        req = sx.int_val(c[2][1])
+        if req is None or req % 2 == 1 or req in seen:      # odd numbers are GET requests
+            continue
+        seen.add(req)
+        n += 1
+        inst = '%s:opus_multistream_encode_native leaves the user\'s %s of each stream alone' % (prog.config, USER_SETTINGS_REQ.get(req, OWN_REQ.get(req, 'request %d' % req)))
+        where = '%s:%s' % (f.file, sx.line(c))
+        if req in USER_SETTINGS_REQ:
+            rep.violated('R11.12', inst, where, 'every encode call issues request %d (set %s) on the stream encoders (surround mapping): the value set through opus_multistream_encoder_ctl before the first frame does not bind the packets' % (
+                req, USER_SETTINGS_REQ[req]), key='ms-encode-overrides:%d' % req)
+        elif req in OWN_REQ:
+            rep.holds('R11.12', inst, where, 'the encoder\'s own per-frame parameter')
+        else:
+            rep.unresolved('R11.12', inst + ': unknown request number')
+    if n == 0:
+        rep.holds('R11.12', '%s:opus_multistream_encode_native issues no SET request for a user setting on its streams' % prog.config, f.where(), None)
+        n = 1
+    return n
+
+
 def check(rep, prog, tier):
+    r11_12(rep, prog)
     r11_10(rep, prog)
     r11_11(rep, prog)
     arms_by_disp = {}
